@@ -7,12 +7,6 @@ PID = 'C08'
 SHORT = 'hmac'
 
 ENV = '''
-#[derive(Debug, Clone, Copy, PartialEq, Eq, Structural)]
-pub struct StatusCode { pub bits: u32 }
-impl StatusCode {
-    pub const BadInvalidArgument: StatusCode = StatusCode { bits: 0x80AB_0000 };
-    pub const BadSecurityChecksFailed: StatusCode = StatusCode { bits: 0x8013_0000 };
-}
 pub mod hash { use vstd::prelude::*; verus! {
     #[derive(Clone, Copy)]
     pub struct MessageDigest { pub id: u8 }
@@ -99,6 +93,7 @@ def build(manifest):
     a = Asm()
     a.add('use vstd::prelude::*;\nverus! {\nglobal size_of usize == 8;\n', 'prelude', 'env')
     a.add(norm_vis(sp.enum('SecurityPolicy')) + '\n' + norm_vis(cm.const('SHA1_SIZE')) + '\n' + norm_vis(cm.const('SHA256_SIZE')), 'types', 'env')
+    a.add(status_code_struct(manifest), 'status codes', 'env')      # every status code of the real file (D14)
     a.add(ENV, 'env', 'env')
     for n in ['hmac', 'hmac_sha1', 'hmac_sha256', 'verify_hmac_sha1', 'verify_hmac_sha256']:
         a.add(f[n], n, 'fn')
